@@ -203,7 +203,14 @@ func vf05Run(run *verifrt.Run, m *vfMMU, c vf05Case) {
 			report("page-not-mapped", fmt.Sprintf("page %#x is not mapped in the kernel address space, expected entry %#x", va, e))
 			return
 		}
-		if g != e {
+		// only what the property speaks about is compared: the frame, present, writable, user-accessible and
+		// no-execute; accessed/dirty/global/caching bits are the implementation's business. For reserved pages the
+		// property only fixes the translation.
+		rel := uintptr(vfFrameMask) | uintptr(FlagPresent) | uintptr(FlagRW) | uintptr(FlagUserAccessible) | uintptr(FlagNoExecute)
+		if _, isRsv := rsvFrames[va]; isRsv {
+			rel = uintptr(vfFrameMask) | uintptr(FlagPresent)
+		}
+		if g&rel != e&rel {
 			class := "wrong-entry"
 			if (g^e)&vfFrameMask == 0 {
 				class = "wrong-permissions"
